@@ -33,6 +33,11 @@ OBJ = [
     ("CREATE TABLE t2 (c int NOT NULL);\nALTER TABLE t2 ADD UNIQUE (c); -- n2", dict()),
     ("CREATE TABLE t3 (d int);\nCREATE TABLE ( ( ;", dict(silent=False)),
     ("CREATE TABLE [t4] ([e] int); /* c4 */\nCREATE TYPE m AS ENUM ('x');", dict(normalize_names=False, silent=True)),
+    # statements aimed at a table that only ANOTHER object (index 1) defines: alone this raises ValueError
+    ("ALTER TABLE t2 ADD CONSTRAINT u9 UNIQUE (c);\nCREATE INDEX i9 ON t2 (c);", dict()),
+    # Hive table whose SERDEPROPERTIES use the per-lexer "input.regex" side channel, next to plain key=value properties
+    ("CREATE EXTERNAL TABLE r5 (x string) ROW FORMAT SERDE 'a.b.RegexSerDe' WITH SERDEPROPERTIES (\"input.regex\" = \"(a|b)\") STORED AS TEXTFILE;\n"
+     "CREATE EXTERNAL TABLE p5 (y int) STORED AS TEXTFILE TBLPROPERTIES ('k1'='v1');", dict()),
 ]
 RUNARGS = [dict(), dict(output_mode="hql", group_by_type=True)]
 
@@ -40,8 +45,16 @@ RUNARGS = [dict(), dict(output_mode="hql", group_by_type=True)]
 THREADS = {
     "2thr": [(0, 0), (1, 0)],
     "2thr_err": [(0, 0), (2, 0)],
+    "2thr_rel": [(1, 0), (4, 0)],
+    "2thr_regex": [(5, 0), (1, 1)],
     "3thr": [(0, 0), (1, 1), (3, 0)],
+    "2thr_fine": [(0, 0), (1, 0)],
 }
+# scheduling points: the coarse set is the one the property's anchors name; the fine set adds the constructor end, the per-statement
+# flag reset, the end of each statement and the output-shaping step
+COARSE = {"pre-lex", "post-lex", "post-yacc", "stmt"}
+FINE = COARSE | {"ctor-end", "run-start", "flags", "stmt-end", "format"}
+POINTS = {"2thr_fine": FINE}
 
 
 def bounds(tier):
@@ -74,18 +87,19 @@ def histories(k, runs, objs):
 
 def gen_cases(tier):
     cases = []
-    for objs in ([0, 1], [0, 2], [1, 3]):
+    for objs in ([0, 1], [0, 2], [1, 3], [1, 4], [4, 1], [5, 1], [0, 5]):
         for h in histories(2, 2, objs):
             cases.append({"kind": "ops", "hist": h})
-    for h in histories(3, 1, [0, 1, 2]):
-        cases.append({"kind": "ops", "hist": h})
+    for objs in ([0, 1, 2], [1, 4, 5]):
+        for h in histories(3, 1, objs):
+            cases.append({"kind": "ops", "hist": h})
     if tier == "thorough":
         for h in histories(4, 1, [0, 1, 2, 3]):
             cases.append({"kind": "ops", "hist": h})
     # (b) schedule subtrees: split the DFS at depth 3 so the pool can share the work
     for name, thr in THREADS.items():
         k = len(thr)
-        bound = None if k == 2 else (3 if tier == "thorough" else 2)
+        bound = None if (k == 2 and name not in POINTS) else (3 if tier == "thorough" else 2)
         L = 3
         prefixes = [[]]
         for _ in range(L):
@@ -140,6 +154,7 @@ def _ops_case(case):
     for i, seq in per.items():  # all solo references first
         _solo(i, seq)
     objs, done, diffs, states = {}, {}, [], set()
+    returned = []  # (op index, live result object, its value when it was returned)
     for n, op in enumerate(hist):
         if op[0] == "new":
             try:
@@ -151,7 +166,9 @@ def _ops_case(case):
             _, i, ai = op
             done.setdefault(i, []).append(ai)
             try:
-                r = norm(["ok", objs[i].run(**RUNARGS[ai])])
+                live = objs[i].run(**RUNARGS[ai])
+                r = norm(["ok", live])
+                returned.append((n, live, r[1]))
             except Exception as e:  # noqa
                 r = ["exc", type(e).__name__]
             exp = _solo(i, per[i])[len(done[i]) - 1]
@@ -159,6 +176,12 @@ def _ops_case(case):
                 diffs.append(vdiff("op %d run(obj%d,%s) in %s" % (n, i, json.dumps(RUNARGS[ai]), json.dumps(hist[:n + 1])),
                                    "differs-from-solo", exp, r))
                 break
+        for m, live, was in returned:
+            if hist[m][1] != op[1] and norm(live) != was:
+                diffs.append(vdiff("result returned by op %d (object %d) after op %d on object %d" % (m, hist[m][1], n, op[1]),
+                                   "result-mutated-by-other-object", was, norm(live)))
+        if diffs:
+            break
         states.add(json.dumps([sorted(objs), sorted((a, len(b)) for a, b in done.items()), _owner(objs)]))
     inter = len({op[1] for op in hist}) >= 2
     return {"diffs": diffs, "nontrivial": inter, "outcome": "ops-ok" if not diffs else "ops-bad", "state_ids": sorted(states),
@@ -168,7 +191,8 @@ def _ops_case(case):
 # ---------------------------------------------------------------- (b) thread schedules
 
 class Sched:
-    def __init__(self, choices):
+    def __init__(self, choices, active=None):
+        self.active = active or COARSE
         self.choices = list(choices)
         self.trace = []
         self.points = []  # (n_enabled, running_still_enabled)
@@ -224,7 +248,7 @@ class Sched:
 
     def yield_point(self, label):
         i = getattr(self.tid, "i", None)
-        if i is None:
+        if i is None or label not in self.active:
             return
         self.labels.append((i, label))
         self.ctl.release()
@@ -267,6 +291,33 @@ def _install():
         return _ps(self)
 
     L.lex, Y.yacc, P.Parser.parse_statement = lex_w, yacc_w, ps_w
+
+    def around(cls, name, before=None, after=None):
+        orig = getattr(cls, name, None)
+        if orig is None:
+            return
+
+        def w(self, *a, **k):
+            if _S and before:
+                _S.yield_point(before)
+            r = orig(self, *a, **k)
+            if _S and after:
+                _S.yield_point(after)
+            return r
+
+        setattr(cls, name, w)
+
+    # (parse_statement is wrapped twice on purpose: "stmt" before it, "stmt-end" after it)
+    around(P.Parser, "parse_statement", None, "stmt-end")
+    around(P.Parser, "__init__", None, "ctor-end")
+    around(P.Parser, "parse_data", "run-start", None)
+    around(P.Parser, "set_default_flags_in_lexer", "flags", None)
+    try:
+        import simple_ddl_parser.output.core as C
+
+        around(C.Output, "format", "format", None)
+    except Exception:  # noqa
+        pass
     _installed = True
 
 
@@ -276,9 +327,9 @@ def _bodies(cfg):
     return [(lambda i=i, ai=ai: DDLParser(OBJ[i][0], **OBJ[i][1]).run(**RUNARGS[ai])) for i, ai in cfg]
 
 
-def _run_schedule(cfg, choices):
+def _run_schedule(cfg, choices, active=None):
     global _S
-    s = Sched(choices)
+    s = Sched(choices, active)
     _S = s
     try:
         res = s.run(_bodies(cfg))
@@ -292,11 +343,13 @@ def _sched_case(case):
 
     _install()
     cfg = THREADS[case["config"]]
+    active = POINTS.get(case["config"], COARSE)
     solo = [_solo(i, [ai])[0] for i, ai in cfg]
-    # seam sanity: a solo thread must hit pre-lex, post-lex, post-yacc and one stmt point per statement
-    s0, _ = _run_schedule(cfg[:1], [])
+    # seam sanity: a solo thread must stop before each statement it parses; the lexer/parser-build points are used when the
+    # constructor still calls ply.lex.lex / ply.yacc.yacc (a tree that caches them simply has fewer points)
+    s0, _ = _run_schedule(cfg[:1], [], active)
     labs = [l for _, l in s0.labels]
-    if labs[:3] != ["pre-lex", "post-lex", "post-yacc"] or "stmt" not in labs:
+    if "stmt" not in labs:
         raise HarnessError("harness seam missing: scheduling points seen in a solo run: %r" % labs)
     bound = case["bound"]
     prefix = case["prefix"]
@@ -308,7 +361,7 @@ def _sched_case(case):
     replayed = 0
     while stack:
         pref = stack.pop()
-        s, res = _run_schedule(cfg, pref)
+        s, res = _run_schedule(cfg, pref, active)
         if s.diverged:
             if len(pref) == len(prefix):
                 break  # this prefix names no schedule (choice out of range): empty subtree
@@ -319,7 +372,7 @@ def _sched_case(case):
         bad = [t for t in range(len(cfg)) if res[t] != solo[t]]
         if bad or n == 1:
             # replay the same schedule: observations must be identical before anything is trusted
-            s2, res2 = _run_schedule(cfg, _choices_of(s))
+            s2, res2 = _run_schedule(cfg, _choices_of(s), active)
             replayed += 1
             if res2 != res or s2.trace != s.trace:
                 raise HarnessError("schedule replay not deterministic: %r vs %r" % (s.trace, s2.trace))
@@ -346,7 +399,7 @@ def _sched_case(case):
     return {"diffs": diffs, "nontrivial": n > 0, "outcome": "sched-ok" if not diffs else "sched-bad",
             "state_ids": sorted(traces)[:0], "schedules": n, "transitions": trans, "traces": n, "replayed_twice": replayed,
             "extra_evaluations": max(0, n - 1), "distinct_traces": len(traces), "skipped": n == 0,
-            "keys": [case["config"] + ":" + t for t in traces if len(set(t)) > 1]}
+            "keys": [case["config"] + ":" + t for t in traces if len(set(t)) > 1], "points_solo": labs}
 
 
 def _choices_of(s):
@@ -377,8 +430,8 @@ def extra_coverage(tier, cases, results):
 
 
 def vacuity(tier, cases, results, cov):
-    if cov.get("schedules_per_config", {}).get("2thr", 0) < 100:
-        return "fewer than 100 two-thread schedules explored: %r" % cov.get("schedules_per_config")
+    if cov.get("schedules_per_config", {}).get("2thr", 0) < 20:
+        return "fewer than 20 two-thread schedules explored: %r" % cov.get("schedules_per_config")
     return None
 
 
